@@ -291,6 +291,17 @@ class ResolveStream(runner.Stream):
 
     def witnesses(self):
         out = []
+        # two value assignments whose names differ only in the case of a letter: each use resolves to its own
+        for n1, n2 in (("maxLen", "maxlen"), ("lowerBound", "lowerbound"), ("aB", "ab")):
+            vals = f"{n1} INTEGER ::= 4\n{n2} INTEGER ::= 8"
+            body = ("Blob ::= OCTET STRING (SIZE(1..%s))\nSpan ::= INTEGER (%s..%s)\nLst ::= SEQUENCE (SIZE(%s..%s, ...)) OF BOOLEAN\n"
+                    "Cfg ::= SEQUENCE { d INTEGER DEFAULT %s, e INTEGER DEFAULT %s }")
+            a = f"Main DEFINITIONS AUTOMATIC TAGS ::= BEGIN\n{vals}\n{body % (n2, n1, n2, n1, n2, n2, n1)}\nEND"
+            b = f"Main DEFINITIONS AUTOMATIC TAGS ::= BEGIN\n{vals}\n{body % (8, 4, 8, 4, 8, 8, 4)}\nEND"
+            out.append(f"resolve subst {hx(a)} {hx(b)} regress:names_differ_in_case:eq")
+            a = a.replace(vals, f"{n2} INTEGER ::= 8\n{n1} INTEGER ::= 4")
+            b = b.replace(vals, f"{n2} INTEGER ::= 8\n{n1} INTEGER ::= 4")
+            out.append(f"resolve subst {hx(a)} {hx(b)} regress:names_differ_in_case:eq")
         # value references called min / max / Max (legal names; the keywords are upper case): as INTEGER
         # and SIZE bounds they resolve like any other reference
         for lo, hi in (("min", "max"), ("mIN", "Max"), ("min", "maX")):
